@@ -90,6 +90,7 @@ __CPROVER_requires(PRIV_OK(self) && LEDGER_OK() && LEDGER_RANGE2())
 __CPROVER_assigns(g_w[0].pos, g_w[1].pos, g_list_own_seen, g_list_next)
 __CPROVER_ensures(__CPROVER_return_value._base.kind == L_ROTLIST && __CPROVER_return_value._base.lo == 0 && IS_BOOL(__CPROVER_return_value._base.sorted))
 __CPROVER_ensures(__CPROVER_return_value._base.n == g_R_count)           /* every own rotated file, nothing else */
+__CPROVER_ensures(__CPROVER_return_value._base.sorted == 0 || __CPROVER_return_value._base.rm0 == g_removes)         /* sorted now: no file removed since */
 ENS_C06(__CPROVER_return_value._base.sorted == 1);                        /* oldest first (needs comparator_total)  */
 #if defined(LOOPKIND_RotatingFileSink_RotatingFileSinkPrivate_findRotatedFiles_0_range_for) && defined(HASVAR_RotatingFileSink_RotatingFileSinkPrivate_findRotatedFiles_result) \
     && defined(HASVAR_RotatingFileSink_RotatingFileSinkPrivate_findRotatedFiles_entries)
